@@ -145,6 +145,37 @@ func (c *Ctx) FailClass(class string, sigs []string, detail string, replay any) 
 	c.viol = append(c.viol, violation{Class: class, Detail: detail, Replay: p, Count: 1})
 }
 
+// Absorb merges the results of a sub-run (same property) into c.
+func (c *Ctx) Absorb(o *Ctx) {
+	o.mu.Lock()
+	defer o.mu.Unlock()
+	c.mu.Lock()
+	defer c.mu.Unlock()
+	c.Evaluations += o.Evaluations
+	c.TracesValidated += o.TracesValidated
+	c.States += o.States
+	c.Transitions += o.Transitions
+	for k := range o.distinct {
+		c.distinct[k] = struct{}{}
+	}
+	for _, s := range o.Samples {
+		if len(c.Samples) < 8 {
+			c.Samples = append(c.Samples, s)
+		}
+	}
+	c.viol = append(c.viol, o.viol...)
+	c.broken = append(c.broken, o.broken...)
+	for k, v := range o.knownHits {
+		c.knownHits[k] += v
+		if _, ok := c.knownEx[k]; !ok {
+			c.knownEx[k] = o.knownEx[k]
+		}
+	}
+	for k, v := range o.Extra {
+		c.Extra["tables_"+k] = v
+	}
+}
+
 // Broken records an infrastructure problem (exit 2).
 func (c *Ctx) Broken(format string, a ...any) {
 	c.mu.Lock()
